@@ -15,10 +15,11 @@ import (
 func init() { core.Register("C08", checkC08) }
 
 func checkC08(e *core.Env) {
+	curEnv = e
 	e.SetRule("client-streaming handlers emitting n in {0,1,2,3,5} raw responses with nil or non-nil final status, with/without headers and trailers, client asking for headers first or not; unary handlers returning a nil response (in-process); over HTTP, clients sending 0..3 request messages to a single-request method; oracle: success => exactly one response, handler nil, message equal; n=1 and nil => success; extra requests => handler's first receive fails and the client sees non-OK; distinct = (carrier, n, final status, header/trailer use, client order)")
 	cs := stdCarriers()
 	defer cs.Close()
-	n := e.N(300, 2400)
+	n := e.N(800, 12000)
 	e.Cases("responses", n, func(i int, r *rand.Rand) {
 		for ci, c := range cs.list {
 			rr := rand.New(rand.NewSource(r.Int63() + int64(ci)))
@@ -87,7 +88,7 @@ func checkC08(e *core.Env) {
 	})
 
 	// HTTP: extra request messages on single-request methods
-	e.Cases("requests", e.N(120, 900), func(i int, r *rand.Rand) {
+	e.Cases("requests", e.N(300, 4000), func(i int, r *rand.Rand) {
 		c := cs.list[1+i%2]
 		k := pick(r, 1, 2, 2, 3)
 		tag := fmt.Sprintf("%016x", r.Uint64())
